@@ -211,8 +211,15 @@ def wiring(chk, r, n):
                 elif not (1000.0 <= float(ret) < 1000.0 + n_h and int(round(float(ret) - 1000.0)) in geno.tolist()):
                     bad = "the value returned is not the kernel's likelihood entry of an allele now in the genotype"
         if bad:
-            chk.violation("compound_step (call sampler): " + bad, {**case, "slots": slots, "before": before.tolist(), "after": geno.tolist(),
-                                                                 "returned": float(ret)}, "C02/wiring/compound_step")
+            # how the arrays travel (in place or by copy, one kernel call per copy) is the structure this stream observes the
+            # code through, not the property: a difference there is a broken correspondence; wrong values are violations
+            structural = bad.startswith(("the kernel is not handed the genotype array", "the kernel of the requested step type",
+                                         "the kernel is not handed the likelihood cache"))
+            rep = {**case, "slots": slots, "before": before.tolist(), "after": geno.tolist(), "returned": float(ret)}
+            if structural:
+                chk.disagreement("compound_step (call sampler): " + bad, rep)
+            else:
+                chk.violation("compound_step (call sampler): " + bad, rep, "C02/wiring/compound_step")
 
         # ---- mcmc_sampler -> compound_step
         f2 = mcmc.mcmc_sampler.py_func
